@@ -84,6 +84,10 @@ META = {
                 tech="complete enumeration of scripted server behaviours per queued request (immediate, delayed, fragmented, redirecting, closing) against the real http.Client",
                 text="1-2/3 queued requests, plain and TLS-flavoured client, reconnectable or not; every assignment of 6-7 server behaviours and 4 redirect codes; no request bytes while an earlier response is unfinished; at most one response entry per request in order with tag and redirect history; https->http refused without contacting the plain listener; exactly one entry per request when the connection stays usable.",
                 note="Liveness is not demanded through a connection the server closed unless the client is reconnectable on its original connector."),
+    "C20": dict(cat="model_checking", eng="E3 permutation enumeration", ref="3 (memo group)",
+                tech="exhaustive enumeration of gram sizes x header encodings x codes through the real Memoer.rend, and of every delivery permutation, duplicate insertion, strict subset and two-memo interleaving into the real receive side",
+                text="5 unicode memos x 4 zeroth-gram codes x base64/base2 headers x every gram size from the legal minimum to the first single-gram size; for sizes giving <= 3 (quick) / 4 (thorough) grams: all permutations, all permutations with one duplicate at every position, all permutations of all strict subsets, all order-preserving merges with a second memo from another source and signer; the inbox must equal the multiset of complete memos with text, source and signer id.",
+                note="Recorded KNOWN-FINDINGs: rend fails for the smallest legal base2 gram sizes; a duplicate of an already delivered memo is delivered again; a signed gram ahead of its zeroth gram is dropped. Counter-based memo ids, fixed ed25519 seeds."),
     "C21": dict(cat="fault_enumeration", eng="E1 full answer tree over scripted transport / fake datagram socket", ref="3 (memo group)",
                 tech="complete enumeration of the tree of transport answers (accept all / 0 / 1 / len-1 bytes, would-block, unreachable errnos) to the first 4/6 sends, real Memoer and udp PeerMemoer transmit servicing, per-destination ideal-sender oracle",
                 text="6 layouts of 2-3 grams to 1-2 destinations x {Memoer with scripted send, udp.PeerMemoer over a fake datagram socket} x {greedy service(), serviceAllOnce()}: every answer history of the first 4 (quick) / 6 (thorough) sends, then all-accepting sends to a horizon; every send must offer exactly the unsent rest of the oldest unfinished gram of its destination; at the horizon every gram was accepted in full or dropped by an unreachable answer and the buffers are empty. Plus each of the 10 unreachable errnos at each of the first 3 sends.",
